@@ -239,7 +239,7 @@ static void build_corpus(bool thorough) {
             f.stamp = gds_timestamp(tmp.c_str(), NULL, &tc);
             if (ec != ErrorCode::NoError || tc != ErrorCode::NoError) R->internal_error("complete corpus file not readable: " + f.name);
             CORPUS.push_back(f);
-            lib.free_all();
+            (void)lib;  // corpus libraries are deliberately not released in the coordinating process: a defect in the release code must show up in the workers (readers on truncated files), not abort the corpus build
         }
     }
     struct OC { uint16_t flags; uint8_t level; };
@@ -264,7 +264,7 @@ static void build_corpus(bool thorough) {
             if (!ok || (f.signed_oas && vc == ErrorCode::ChecksumError) || (!f.signed_oas && vc != ErrorCode::ChecksumError))
                 R->violation("control.oas_validate", "complete-file", {{"file", jstr(f.name)}}, jobj({{"file", jstr(f.name)}}), "complete gdstk-written OASIS file does not validate as expected", "sub=control");
             CORPUS.push_back(f);
-            lib.free_all();
+            (void)lib;  // corpus libraries are deliberately not released in the coordinating process: a defect in the release code must show up in the workers (readers on truncated files), not abort the corpus build
         }
     }
     unlink(tmp.c_str());
@@ -294,7 +294,7 @@ static void build_corpus(bool thorough) {
                 ErrorCode le = ErrorCode::NoError;
                 Library lib = read_gds(path.c_str(), 0, 1e-2, NULL, &le);
                 bool loads = !is_error(le);
-                lib.free_all();
+                (void)lib;  // corpus libraries are deliberately not released in the coordinating process: a defect in the release code must show up in the workers (readers on truncated files), not abort the corpus build
                 if (ec != ErrorCode::NoError || tc != ErrorCode::NoError || !loads)
                     R->violation("control.gds", "complete-file", {{"file", jstr(f.name)}}, jobj({{"file", jstr(f.name)}}), "complete independently encoded GDSII file is not readable", "sub=control");
             } else {
